@@ -6,13 +6,16 @@ use identity_core::convert::{FromJson, ToJson};
 use identity_iota_core::{Error as IErr, IotaDID, IotaDocument, StateMetadataDocument};
 use serde_json::{json, Map, Value};
 
-const DIDS: [(i64, &str); 8] = [
+const DIDS: [(i64, &str); 10] = [
   (0, "did:0:0"),
   (1, "did:iota:0x1111111111111111111111111111111111111111111111111111111111111111"),
   (2, "did:iota:0x2222222222222222222222222222222222222222222222222222222222222222"),
   (3, "did:iota:smr:0x3333333333333333333333333333333333333333333333333333333333333333"),
   (4, "did:iota:rms:0x4444444444444444444444444444444444444444444444444444444444444444"),
   (5, "did:iota:0x5555555555555555555555555555555555555555555555555555555555555555"),
+  // foreign DIDs that share the 32-byte tag of DID 1 / DID 2 but live on another network
+  (6, "did:iota:smr:0x1111111111111111111111111111111111111111111111111111111111111111"),
+  (7, "did:iota:rms:0x2222222222222222222222222222222222222222222222222222222222222222"),
   (10, "did:example:abc"),
   (11, "did:web:example.com"),
 ];
@@ -221,7 +224,7 @@ fn case2(data: &[u8]) -> Vec<i64> {
 }
 
 fn gen_doc(rng: &mut Rng, self_did: i64) -> D {
-  let dids = [self_did, self_did, 2, 5, 10, 11];
+  let dids = [self_did, self_did, 2, 5, 6, 7, 10, 11];
   let mut d = D { id: self_did, ..Default::default() };
   d.ctrl = match rng.below(5) { 0 => vec![], 1 => vec![self_did], 2 => vec![self_did, 2], 3 => vec![2, 5], _ => vec![4, self_did, 5] };
   let mut u = |rng: &mut Rng| U { d: *rng.pick(&dids), r: if rng.chance(1, 8) { rng.range(1, 2) } else { 0 }, f: rng.range(0, 3) };
@@ -251,7 +254,7 @@ pub fn gen(rng: &mut Rng, thorough: bool, sink: &mut Sink) {
     let self_did = if rng.chance(3, 4) { 1 } else { 3 };
     let d = gen_doc(rng, self_did); let m = gen_meta(rng);
     if build(&d, &m).is_none() { continue; }
-    let tgt = match i % 4 { 0 => self_did, 1 => 2, 2 => *rng.pick(&[4, 5]), _ => *rng.pick(&[1, 2, 3, 4, 5]) };
+    let tgt = match i % 4 { 0 => self_did, 1 => 2, 2 => *rng.pick(&[4, 5]), _ => *rng.pick(&[1, 2, 3, 4, 5, 6, 7]) };
     if let Some(c) = case1(tgt, &d, &m) { sink.case(c, "random-doc"); }
   }
   // size boundary: bodies of 65534 .. 65537 bytes
